@@ -75,10 +75,11 @@ func init() {
 			for i := range auto.Cond {
 				out = append(out, cs("VH_C08_CondValues", i, 0, q(tier, 1, 2)), cs("VH_C08_CondValues", i, 2, 1))
 			}
+			out = append(out, cs("VH_C08_EqualAwkward", 0), cs("VH_C08_EqualAwkward", 1))
 			return out
 		},
 		boundsText: map[string]string{
-			"quick":    "values: every exported Stack/Condition method x a catalogue of 27 values for each `any` argument (variadics of length 0..1 quick / 0..2 thorough), option bits clear, kinds AND and LIST on initialised receivers with nested content; indices: stack length n<=4 (spare capacity<=1 for n<=2), Traverse path length<=3, constructor capacity argument<=64; every int argument, option bits, kind, FIFO flag, capacity field: all values",
+			"quick":    "values: every exported Stack/Condition method x a catalogue of 30 values for each `any` argument (variadics of length 0..1 quick / 0..2 thorough), option bits clear, kinds AND and LIST on initialised receivers with nested content; indices: stack length n<=4 (spare capacity<=1 for n<=2), Traverse path length<=3, constructor capacity argument<=64; every int argument, option bits, kind, FIFO flag, capacity field: all values",
 			"thorough": "stack length n<=6 (spare capacity<=2 for n<=4), Traverse path length<=3, constructor capacity argument<=64; every int argument, option bits, kind, FIFO flag, capacity field: all values",
 		},
 		outside: "stacks longer than the bound; constructor capacities above 64 (allocation size only); element values outside the harness catalogue",
@@ -137,6 +138,9 @@ func init() {
 						case 0, 2:
 							for m := 0; m <= 3; m++ {
 								out = append(out, cs("VH_C03_Step", n, slack, m, op))
+								if slack == 0 {
+									out = append(out, cs("VH_C03_Step", n, slack, m, op, 1)) // with a push policy
+								}
 							}
 						default:
 							out = append(out, cs("VH_C03_Step", n, slack, 0, op))
@@ -265,7 +269,7 @@ func init() {
 			return out
 		},
 		boundsText: map[string]string{
-			"quick":    "every exported method of Stack, Condition, Auxiliary and every exported package-level function of the tree under test (enumerated from go/types at run time) x receiver states {zero value, freed, Init()-only Condition, nil Auxiliary} x argument variants (ints/bools: all values; strings: 4; any: catalogue of 24 awkward values; variadics of length 0..2; closures nil/inert); Reset/Free on arbitrary stacks of length<=3 with nil elements",
+			"quick":    "every exported method of Stack, Condition, Auxiliary and every exported package-level function of the tree under test (enumerated from go/types at run time) x receiver states {zero value, freed, Init()-only Condition, nil Auxiliary} x argument variants (ints/bools: all values; strings: 4; any: catalogue of 30 awkward values; variadics of length 0..2; closures nil/inert); Reset/Free on arbitrary stacks of length<=3 with nil elements",
 			"thorough": "as quick with Reset/Free on lengths<=5",
 		},
 		outside: "argument values outside the catalogue; string results are not constrained (documented sentinels such as <invalid_stack>, unspecified, uninitialized)",
@@ -577,7 +581,7 @@ func init() {
 				for mut := 0; mut <= 7; mut++ {
 					out = append(out, cs("VH_C05", 1, 4, mut, 0, 1, t, 1))
 				}
-				for mut := 0; mut <= 3; mut++ {
+				for mut := 0; mut <= 4; mut++ {
 					if t < 11 {
 						out = append(out, cs("VH_C05_Cond", t, mut))
 					}
